@@ -61,7 +61,8 @@ def run_one(cmd, path, timeout):
 
 
 def solve(query, consts, timeout=10, want_model=True, order=None):
-    """returns dict(verdict, solver, seconds, model, log)"""
+    """returns dict(verdict, solver, seconds, model, log).  cvc5 and z3-new run concurrently (first definitive answer
+    wins, the other is killed); /usr/bin/z3 is tried afterwards if both gave up."""
     fd, path = tempfile.mkstemp(suffix=".smt2", prefix="pyvc_")
     os.close(fd)
     log = []
@@ -74,25 +75,55 @@ def solve(query, consts, timeout=10, want_model=True, order=None):
                 q = query + "(get-value (%s))\n" % names
         with open(path, "w") as f:
             f.write(q)
-        total = 0.0
-        for name, cmd in SOLVERS if order is None else [s for s in SOLVERS if s[0] in order]:
-            extra = []
-            if name == "cvc5":
-                extra = ["--tlimit=%d" % int(timeout * 1000)]
-            else:
-                extra = ["-T:%d" % int(timeout)]
-            v, out, dt = run_one(cmd + extra, path, timeout + 2)
-            total += dt
+        t0 = time.time()
+        first = [s for s in SOLVERS if s[0] in ("cvc5", "z3-new") and (order is None or s[0] in order)]
+        procs = []
+        for name, cmd in first:
+            extra = ["--tlimit=%d" % int(timeout * 1000)] if name == "cvc5" else ["-T:%d" % int(timeout)]
+            procs.append((name, subprocess.Popen(cmd + extra + [path], stdout=subprocess.PIPE, stderr=subprocess.STDOUT, text=True), time.time()))
+        pending = list(procs)
+        answer = None
+        while pending and answer is None:
+            for ent in list(pending):
+                name, p, ts = ent
+                rc = p.poll()
+                if rc is None:
+                    if time.time() - ts > timeout + 2:
+                        p.kill()
+                        p.wait()
+                        pending.remove(ent)
+                        log.append((name, "timeout", round(time.time() - ts, 3)))
+                    continue
+                out = p.stdout.read() or ""
+                pending.remove(ent)
+                firstline = out.strip().split("\n")[0].strip() if out.strip() else ""
+                dt = round(time.time() - ts, 3)
+                if firstline in ("sat", "unsat"):
+                    log.append((name, firstline, dt))
+                    answer = (name, firstline, out)
+                    break
+                if firstline == "unknown":
+                    log.append((name, "unknown", dt))
+                else:
+                    log.append((name, "error", dt))
+                    log.append((name, "stderr", out[:300]))
+            if answer is None and pending:
+                time.sleep(0.01)
+        for name, p, ts in pending:
+            try:
+                p.kill()
+                p.wait()
+            except OSError:
+                pass
+        if answer is None and (order is None or "z3" in order):
+            name, cmd = [s for s in SOLVERS if s[0] == "z3"][0]
+            v, out, dt = run_one(cmd + ["-T:%d" % int(timeout)], path, timeout + 2)
             log.append((name, v, round(dt, 3)))
-            if v == "unsat":
-                res.update(verdict="unsat", solver=name, seconds=total)
-                return res
-            if v == "sat":
-                res.update(verdict="sat", solver=name, seconds=total, model=out)
-                return res
-            if v == "error":
-                log.append((name, "stderr", out[:400]))
-        res["seconds"] = total
+            if v in ("sat", "unsat"):
+                answer = (name, v, out)
+        res["seconds"] = time.time() - t0
+        if answer is not None:
+            res.update(verdict=answer[1], solver=answer[0], model=answer[2] if answer[1] == "sat" else None)
         return res
     finally:
         try:
